@@ -174,7 +174,7 @@ var c03Alphabet = []string{"(", ")", "[", "]", "'", "#'", "#^", "\"", ";", " ", 
 
 func c03Stressor(r *fw.RNG) (string, string) {
 	n := []int{1000, 20000, 100000, 1000000}[r.Intn(4)]
-	switch r.Intn(30) {
+	switch r.Intn(34) {
 	case 0:
 		return "deep-parens", strings.Repeat("(", n)
 	case 1:
@@ -229,6 +229,30 @@ func c03Stressor(r *fw.RNG) (string, string) {
 		return "long-string", "\"" + strings.Repeat("\\n", n/2) + "\""
 	case 23:
 		return "nested-load-string", "(defun l (n) (load-string (format-string \"(l {})\" (+ n 1))))\n(l 0)"
+	case 30, 31, 32, 33:
+		// refused, then used: under a lowered allocation cap (the class name selects it) a
+		// mutating or constructing operation is refused; whatever it was applied to must
+		// still be a consistent value for every reader afterwards
+		targets := []struct{ name, build, refuse string }{
+			{"vector-append!", "(set 'c (vector 1 2 3 4 5 6))", "(append! c 7 8 9)"},
+			{"vector-append!-twice", "(set 'c (vector 1 2 3 4 5 6 7))", "(progn (ignore-errors (append! c 8 9)) (append! c 10 11 12))"},
+			{"bytes-append-bytes!", "(set 'c (to-bytes \"abcdef\"))", "(append-bytes! c \"ghij\")"},
+			{"bytes-append!", "(set 'c (to-bytes \"abcdefg\"))", "(append! c 1 2 3)"},
+			{"map-assoc!", "(set 'c (sorted-map \"a\" 1 \"b\" 2 \"c\" 3 \"d\" 4 \"e\" 5 \"f\" 6 \"g\" 7 \"h\" 8))", "(progn (assoc! c \"i\" 9) (assoc! c \"j\" 10))"},
+			{"vector-of-append-result", "(set 'c (append 'vector (vector 1 2 3 4 5 6) 7))", "(append! c 8 9 10)"},
+			{"view-append!", "(set 'base (vector 1 2 3 4 5 6 7 8)) (set 'c (slice 'vector base 0 7))", "(append! c 9 10)"},
+			{"list-concat", "(set 'c (list 1 2 3 4 5 6))", "(set 'c2 (concat 'list c c))"},
+		}
+		k := fw.Pick(r, targets)
+		readers := []string{"(length c)", "(aref c (- (length c) 1))", "(nth c (- (length c) 1))", "(map 'list identity c)", "(reverse 'list c)", "(slice 'vector c 0 (length c))", "(format-string \"{}\" c)",
+			"(json:dump-string c)", "(insert-index 'list c (length c) 0)", "(append 'vector c 1)", "(equal? c c)", "(stable-sort < c)", "(select 'list (lambda (x) true) c)", "(first c)", "(rest c)",
+			"(keys c)", "(get c \"a\")", "(to-string c)", "(foldl (lambda (a x) a) 0 c)", "(zip 'list c c)", "(concat 'list c)", "(empty? c)"}
+		var sb strings.Builder
+		sb.WriteString(k.build + "\n(handler-bind ((condition (lambda (e &rest a) 'refused))) " + k.refuse + ")\n")
+		for _, rd := range readers {
+			sb.WriteString("(handler-bind ((condition (lambda (e &rest a) 'no))) " + rd + ")\n")
+		}
+		return "lowcap-refused-then-used:" + k.name, sb.String()
 	case 26, 27, 28, 29:
 		// the cycle matrix: one self-containing value (the cycle may pass through maps,
 		// vectors, lists, user-typed objects, in one or several hops) handed to every
@@ -335,7 +359,11 @@ func c03Source(w *fw.W, idx int) {
 	// MaxPhys 3000: every error keeps a copy of the call stack, so unbounded handler
 	// nesting at the default 25000 frames costs gigabytes (total memory is documented
 	// as not bounded by elps; an embedder bounds it outside)
-	rr := rt.New(rt.Opts{MaxSteps: 300_000, MaxAlloc: 1_000_000, MaxPhys: 3000})
+	opts := rt.Opts{MaxSteps: 300_000, MaxAlloc: 1_000_000, MaxPhys: 3000}
+	if strings.Contains(class, "lowcap-") {
+		opts.MaxAlloc = 8 // a host-lowered per-operation allocation cap
+	}
+	rr := rt.New(opts)
 	v := rr.Env.LoadStringContext(ctx, "c03", string(src))
 	w.Eval(1)
 	w.Logf("class %s source (%d bytes): %q\n=> %s", class, len(src), trunc(string(src), 600), trunc(v.String(), 400))
